@@ -241,3 +241,11 @@ def run(ck, prog, ctx):
             ck.ob("DISPATCH", "term-layout", routes == want, "term records are routed %s" % {k: sorted(v) for k, v in sorted(routes.items())}, where=tb.where())
         if not done:
             ck.undecided("DISPATCH", "term-layout", "dispatch on the version not recognised", where=tb.where())
+
+    # ------------------------------------------------------------------ LAYOUT: a valid record decodes to exactly the fields it encodes
+    ck.rule("LAYOUT", "every optional store of a decoded field is guarded only by its own bytes: no field is decoded conditionally on another field (DESIGN 3.17)")
+    from props import layout
+    n_l = 0
+    for db in prog.find(r"^parser::binary::term::from_bytes_v2$"):
+        n_l += layout.check_field_independence(ck, "LAYOUT", prog, db, r"HpoTermInternal", db.name)
+    ck.floor("LAYOUT", "optional field stores in the term decoder", n_l, 2)
